@@ -1,5 +1,5 @@
 (** C08 - interpolants reproduce their data (SplineInterpolator1D / 2D of spline_interpolators.py).
-    Only statements, [exact]s and [Print Assumptions]; the proofs live in InterpTheory.v (model: InterpModel.v,
+    Only statements, [exact]s and [Print Assumptions]; the proofs live in InterpTheory.v and Interp2D.v (model: InterpModel.v,
     evaluation: SplineModel.v / SplineTheory.v of C07, seed: CollocRow.row_dot_is_eval) and InterpQc.v (the
     instance on Qc that is extracted and run, and the witnesses computed with it).  Every theorem holds for
     every field with a compatible decidable total order ([sp_laws]), every degree and every size.
@@ -12,20 +12,19 @@
     BY the check A.X = B ([c08_lin_solve_spec] holds by construction); LAPACK / SuperLU are modelled by it.
 
     NOT proved here (see the evidence, "uncovered_clauses"):
-    - interp2d_exact: the 2-D interpolant takes the data values at the tensor grid (all four boundary
-      combinations) - exercised by the exact differential only (model = code, S(x_i, y_j) = u_ij exactly on the
-      model's coefficients, see [c08_ex_interp2d]);
     - reproduction of polynomials of degree 1..p on clamped spaces (degree 0 is [c08_interp1d_const] +
       [c08_const_spline]); tested exactly for degrees 1..5;
     - non-singularity of the collocation matrix for all admissible spaces (Schoenberg-Whitney): the theorems that
       need uniqueness carry the per-instance certificate [ip_inverse_ok] (checked at run time);
     - floating-point rounding, LAPACK ?gbtrf/?gbtrs, SuperLU.
 
-    REFUTED by the faithful model (and by the code, defect 10 of DESIGN section 9):
-    [c08_interp_periodic_small_refuted] - periodic spaces with ncells = degree. *)
+    Periodic spaces with ncells = degree (accepted by make_knots) are COVERED: since repair 6a5dc09 the collocation
+    rows accumulate basis values that wrap onto the same column (np.add.at), the model does the same
+    ([ip_row_acc]) and [c08_row_acc_dot] holds for every column map, so the headline carries no hypothesis on
+    nbasis.  [c08_lww_row_pinned_tree] documents the last-write-wins assignment of the pinned tree (defect 10). *)
 From Coq Require Import List Arith Lia ZArith Bool QArith Qcanon.
 Import ListNotations.
-From PGV Require Import BasisCoxDeBoor CoxDeBoorGen FindSpan CubicUniform CollocRow Sums SplineModel SplineTheory SplineQc InterpModel InterpTheory InterpQc.
+From PGV Require Import BasisCoxDeBoor CoxDeBoorGen FindSpan CubicUniform CollocRow Sums SplineModel SplineTheory SplineQc InterpModel InterpTheory Interp2D InterpQc.
 
 (** the solver: a returned X has the shape n x m and satisfies A.X = B (by construction: the check is part of the definition) *)
 Theorem c08_lin_solve_spec :
@@ -66,13 +65,12 @@ Theorem c08_inverse_spec :
 Proof. exact (@ip_inverse_spec). Qed.
 Print Assumptions c08_inverse_spec.
 
-(** HEADLINE (1-D, clamped and periodic, general and uniform-cubic path): if compute_interpolant returns coefficients c then Spline1D.eval gives u_i at every interpolation point x_i.  Periodic spaces need degree + 1 <= nbasis (distinct columns); [ip_spans_in_range]: evaluation at x_i reads inside the coefficient array (discharged for general spaces in [c08_interp1d_exact_nu]) *)
+(** HEADLINE (1-D, clamped and periodic, general and uniform-cubic path): if compute_interpolant returns coefficients c then Spline1D.eval gives u_i at every interpolation point x_i.  ALL periodic spaces, ncells = degree included (no hypothesis on nbasis); [ip_spans_in_range]: evaluation at x_i reads inside the coefficient array (discharged for general spaces in [c08_interp1d_exact_nu]) *)
 Theorem c08_interp1d_exact :
   forall (F : Type) (K : sp_ops F),
   sp_laws K ->
   forall (knots : list F) (degree : nat) (periodic cubic : bool) (xs u c : list F),
   ip_interp1d F K knots degree periodic cubic xs u = SpOk c ->
-  (periodic = true -> (degree + 1 <= ip_nbasis F K knots degree periodic cubic)%nat) ->
   ip_spans_in_range F K knots degree periodic cubic xs ->
   forall i : nat,
   (i < ip_nbasis F K knots degree periodic cubic)%nat ->
@@ -97,7 +95,6 @@ Theorem c08_interp1d_exact_nu :
   sp_laws K ->
   forall (knots : list F) (degree : nat) (periodic : bool) (xs u c : list F),
   ip_interp1d F K knots degree periodic false xs u = SpOk c ->
-  (periodic = true -> (degree + 1 <= ip_nbasis F K knots degree periodic false)%nat) ->
   sp_lt K (sp_kn F K knots degree) (sp_kn F K knots (length knots - 1 - degree)) ->
   forall i : nat,
   (i < ip_nbasis F K knots degree periodic false)%nat ->
@@ -111,7 +108,6 @@ Theorem c08_interp_many_exact :
   sp_laws K ->
   forall (knots : list F) (degree : nat) (periodic cubic : bool) (xs : list F) (us cs : list (list F)),
   ip_interp_many F K knots degree periodic cubic xs us = SpOk cs ->
-  (periodic = true -> (degree + 1 <= ip_nbasis F K knots degree periodic cubic)%nat) ->
   ip_spans_in_range F K knots degree periodic cubic xs ->
   forall r i : nat,
   (r < length us)%nat ->
@@ -120,6 +116,48 @@ Theorem c08_interp_many_exact :
   SpOk (nth i (nth r us []) (sp0 K)).
 Proof. exact (@ip_interp_many_exact). Qed.
 Print Assumptions c08_interp_many_exact.
+
+(** HEADLINE (2-D, all four clamped / periodic combinations, general and uniform-cubic path): if SplineInterpolator2D.compute_interpolant (two sweeps of 1-D solves, both transposes, both wraps) returns w then Spline2D.eval gives u[i][j] at every point (x1_i, x2_j) of the tensor grid *)
+Theorem c08_interp2d_exact :
+  forall (F : Type) (K : sp_ops F),
+  sp_laws K ->
+  forall (k1 : list F) (d1 : nat) (per1 : bool) (xs1 k2 : list F) (d2 : nat)
+  (per2 : bool) (xs2 : list F) (cubic : bool) (ug w : list (list F)),
+  ip_interp2d F K k1 d1 per1 xs1 k2 d2 per2 xs2 cubic ug = SpOk w ->
+  ip_spans_in_range F K k1 d1 per1 cubic xs1 ->
+  ip_spans_in_range F K k2 d2 per2 cubic xs2 ->
+  forall i j : nat,
+  (i < ip_nbasis F K k1 d1 per1 cubic)%nat ->
+  (j < ip_nbasis F K k2 d2 per2 cubic)%nat ->
+  ip_eval2d F K k1 d1 k2 d2 cubic w (nth i xs1 (sp0 K)) (nth j xs2 (sp0 K)) =
+  SpOk (nth j (nth i ug []) (sp0 K)).
+Proof. exact (@ip_interp2d_exact). Qed.
+Print Assumptions c08_interp2d_exact.
+
+(** Spline2D.eval at a point whose spans / bases are (s1, b1), (s2, b2) is the tensor sum over the coefficient block *)
+Theorem c08_eval2d_of_span_basis :
+  forall (F : Type) (K : sp_ops F),
+  sp_laws K ->
+  forall (k1 : list F) (d1 : nat) (k2 : list F) (d2 : nat) (cubic : bool)
+  (w : list (list F)) (x y : F) (s1 : nat) (b1 : list F) (s2 : nat) (b2 : list F),
+  ip_span_basis F K k1 d1 cubic x = SpOk (s1, b1) ->
+  ip_span_basis F K k2 d2 cubic y = SpOk (s2, b2) ->
+  (cubic = true -> d1 = 3%nat /\ d2 = 3%nat) ->
+  (d1 <= s1)%nat ->
+  (s1 < length w)%nat ->
+  (d2 <= s2)%nat ->
+  Forall (fun row : list F => (s2 < length row)%nat) w ->
+  ip_eval2d F K k1 d1 k2 d2 cubic w x y =
+  SpOk
+  (sumn F (sp0 K) (spadd K) (S d1)
+  (fun a : nat =>
+  spmul K
+  (sumn F (sp0 K) (spadd K) (S d2)
+  (fun b : nat =>
+  spmul K (nth (s2 - d2 + b) (nth (s1 - d1 + a) w []) (sp0 K)) (nth b b2 (sp0 K))))
+  (nth a b1 (sp0 K)))).
+Proof. exact (@ip_eval2d_of_span_basis). Qed.
+Print Assumptions c08_eval2d_of_span_basis.
 
 (** the coefficient array has ncells + degree entries and periodic interpolants keep their wrapped coefficients consistent: c[n+j] = c[j], j < degree *)
 Theorem c08_wrap_consistent :
@@ -193,8 +231,7 @@ Theorem c08_rows_sum_one_cubic :
   forall (knots : list F) (degree : nat) (periodic : bool) (xs : list F) (A : list (list F)),
   let nb := ip_nbasis F K knots degree periodic true in
   ip_colloc F K nb knots degree periodic true xs = SpOk A ->
-  length xs = nb ->
-  degree = 3%nat -> (periodic = true -> (degree + 1 <= nb)%nat) -> ip_rows_sum_one F K nb A.
+  length xs = nb -> degree = 3%nat -> ip_rows_sum_one F K nb A.
 Proof. exact (@ip_rows_sum_one_cubic). Qed.
 Print Assumptions c08_rows_sum_one_cubic.
 
@@ -214,7 +251,7 @@ Theorem c08_rows_sum_one_nu :
   (i < nb)%nat ->
   sp_le K (sp_kn F K knots degree) (nth i xs (sp0 K)) /\
   sp_le K (nth i xs (sp0 K)) (sp_kn F K knots (length knots - 1 - degree))) ->
-  (periodic = true -> (degree + 1 <= nb)%nat) -> ip_rows_sum_one F K nb A.
+  ip_rows_sum_one F K nb A.
 Proof. exact (@ip_rows_sum_one_nu). Qed.
 Print Assumptions c08_rows_sum_one_nu.
 
@@ -235,7 +272,18 @@ Theorem c08_const_spline :
 Proof. exact (@ip_const_spline_nu). Qed.
 Print Assumptions c08_const_spline.
 
-(** the bookkeeping at the heart of the headline: a row written with numpy assignment semantics, dotted with a vector, is the sum eval forms through the same column map (needs distinct columns) *)
+(** the bookkeeping at the heart of the headline: a row written by np.add.at (repeated columns add up), dotted with ANY vector, is the sum eval forms through the same column map - for EVERY column map into [0, n), no injectivity *)
+Theorem c08_row_acc_dot :
+  forall (F : Type) (K : sp_ops F),
+  sp_laws K ->
+  forall (n : nat) (idx : nat -> nat) (b c : nat -> F) (p : nat),
+  (forall j : nat, (j <= p)%nat -> (idx j < n)%nat) ->
+  sumn F (sp0 K) (spadd K) n (fun k : nat => spmul K (ip_row_acc F K idx b p k) (c k)) =
+  sumn F (sp0 K) (spadd K) (S p) (fun j : nat => spmul K (b j) (c (idx j))).
+Proof. exact (@ip_row_acc_dot). Qed.
+Print Assumptions c08_row_acc_dot.
+
+(** the same for the rows of the model (columns span-p+j, or the same modulo nbasis) *)
 Theorem c08_row_dot_is_eval :
   forall (F : Type) (K : sp_ops F),
   sp_laws K ->
@@ -243,7 +291,6 @@ Theorem c08_row_dot_is_eval :
   (1 <= nb)%nat ->
   (degree <= s)%nat ->
   (periodic = false -> (s < nb)%nat) ->
-  (periodic = true -> (degree + 1 <= nb)%nat) ->
   ip_sum F K nb
   (fun k : nat => spmul K (nth k (ip_row_of F K nb degree s periodic b) (sp0 K)) (sol k)) =
   sumn F (sp0 K) (spadd K) (S degree)
@@ -251,30 +298,41 @@ Theorem c08_row_dot_is_eval :
 Proof. exact (@ip_row_dot). Qed.
 Print Assumptions c08_row_dot_is_eval.
 
-(** REFUTATION witness (defect 10): periodic, degree 2, 2 cells, data (1, 0): S(x_0) = 34/35 *)
-Theorem c08_interp_periodic_small_witness :
+(** periodic spaces with ncells = degree on Qc: degree 2 / 2 cells (row (1/4, 3/4), data reproduced) and degree 1 / 1 cell (no longer singular) *)
+Theorem c08_interp_periodic_small_ok :
   ip_space_ok Qc spq_ops ipq_w10_knots 2 true false = true /\
   ip_nbasis Qc spq_ops ipq_w10_knots 2 true false = 2%nat /\
+  match ip_colloc Qc spq_ops 2 ipq_w10_knots 2 true false ipq_w10_xs with
+  | SpOk A =>
+  map (map spq_show) A = [[(1, 4%positive); (3, 4%positive)]; [(3, 4%positive); (1, 4%positive)]]
+  | _ => False
+  end /\
   match ip_interp1d Qc spq_ops ipq_w10_knots 2 true false ipq_w10_xs ipq_w10_u with
   | SpOk c =>
-  spq_show_res (ip_eval1d Qc spq_ops ipq_w10_knots 2 false c (nth 0 ipq_w10_xs (Q2Qc 0))) =
-  SpOk (34, 35%positive)
+  map (fun x : Qc => spq_show_res (ip_eval1d Qc spq_ops ipq_w10_knots 2 false c x)) ipq_w10_xs =
+  map (fun v : Qc => SpOk (spq_show v)) ipq_w10_u
   | _ => False
-  end /\ spq_show (nth 0 ipq_w10_u (Q2Qc 0)) = (1, 1%positive).
-Proof. exact (@ipq_interp_periodic_small_witness). Qed.
-Print Assumptions c08_interp_periodic_small_witness.
+  end /\
+  match ip_interp1d Qc spq_ops (ipq_z [-1; 0; 1; 2]) 1 true false (ipq_z [0]) (ipq_z [7]) with
+  | SpOk c => map spq_show c = [(7, 1%positive); (7, 1%positive)]
+  | _ => False
+  end.
+Proof. exact (@ipq_interp_periodic_small_ok). Qed.
+Print Assumptions c08_interp_periodic_small_ok.
 
-(** hence the headline is FALSE for periodic spaces with ncells = degree, which make_knots accepts *)
-Theorem c08_interp_periodic_small_refuted :
-  ~
-  (forall (knots : list Qc) (degree : nat) (xs u c : list Qc),
-  ip_space_ok Qc spq_ops knots degree true false = true ->
-  ip_interp1d Qc spq_ops knots degree true false xs u = SpOk c ->
-  forall i : nat,
-  (i < ip_nbasis Qc spq_ops knots degree true false)%nat ->
-  ip_eval1d Qc spq_ops knots degree false c (nth i xs (Q2Qc 0)) = SpOk (nth i u (Q2Qc 0))).
-Proof. exact (@ipq_interp_periodic_small_refuted). Qed.
-Print Assumptions c08_interp_periodic_small_refuted.
+(** PINNED-TREE documentation (defect 10, repaired by 6a5dc09): with the assignment mat[i, js(span)] = basis the same row was (1/8, 3/4) (last write wins), not (1/4, 3/4) *)
+Theorem c08_lww_row_pinned_tree :
+  match spq_nu_basis_funs ipq_w10_knots 2 (spq_of 1 2) 2 with
+  | SpOk b =>
+  map
+  (fun k : nat =>
+  spq_show (row Qc (Q2Qc 0) (ip_col 2 2 2 true) (fun j : nat => nth j b (Q2Qc 0)) 2 k))
+  [0%nat; 1%nat] = [(1, 8%positive); (3, 4%positive)] /\
+  map spq_show (ip_row_of Qc spq_ops 2 2 2 true b) = [(1, 4%positive); (3, 4%positive)]
+  | _ => False
+  end.
+Proof. exact (@ipq_lww_row). Qed.
+Print Assumptions c08_lww_row_pinned_tree.
 
 (** the executed instance satisfies the laws under which everything above is proved *)
 Theorem c08_qc_laws :
